@@ -547,8 +547,14 @@ func (c *ByteConverter) To(obj Object) (interface{}, error) {
 	case *Byte:
 		return obj.value, nil
 	case *Int:
+		if err := intFits(obj.value, reflect.Uint8); err != nil {
+			return nil, err
+		}
 		return byte(obj.value), nil
 	case *Float:
+		if err := floatFits(obj.value, reflect.Uint8); err != nil {
+			return nil, err
+		}
 		return byte(obj.value), nil
 	default:
 		return nil, errz.TypeErrorf("type error: expected byte (%s given)", obj.Type())
@@ -1067,7 +1073,13 @@ func (c *BufferConverter) From(obj interface{}) (Object, error) {
 type DynamicConverter struct{}
 
 func (c *DynamicConverter) To(obj Object) (interface{}, error) {
-	return obj.Interface(), nil
+	value := obj.Interface()
+	if value == nil && obj != Nil {
+		// A function, module, iterator, ... has no Go value: it is refused
+		// rather than turned into nil without a word
+		return nil, errz.TypeErrorf("type error: %s has no Go value", obj.Type())
+	}
+	return value, nil
 }
 
 func (c *DynamicConverter) From(obj interface{}) (Object, error) {
@@ -1163,6 +1175,17 @@ type StructConverter struct {
 func (c *StructConverter) To(obj Object) (interface{}, error) {
 	switch obj := obj.(type) {
 	case *Proxy:
+		// The proxy has to wrap this struct type: the value of another type
+		// cannot be stored or passed where this one is expected (reflect
+		// panics on the attempt)
+		wrapped := reflect.TypeOf(obj.obj)
+		if c.isValueType {
+			if wrapped == nil || wrapped.Kind() != reflect.Pointer || !wrapped.Elem().AssignableTo(c.typ) {
+				return nil, errz.TypeErrorf("type error: expected %s (%v given)", c.typ, wrapped)
+			}
+		} else if wrapped == nil || !wrapped.AssignableTo(c.typ) {
+			return nil, errz.TypeErrorf("type error: expected %s (%v given)", c.typ, wrapped)
+		}
 		// Return the object wrapped by the proxy
 		if c.isValueType {
 			return reflect.ValueOf(obj.obj).Elem().Interface(), nil
